@@ -202,12 +202,13 @@ class Ctx:
 
     def ext_divergence(self, clause, case):
         """the code diverges from a part of the specification that no listed property covers: recorded, reported as NOTE"""
-        e = self.ext.setdefault(clause, {"count": 0, "example": case})
+        e = self.ext.setdefault(clause, {"count": 0, "example": _deep_clip(case)})
         e["count"] += 1
 
     def sample(self, x, limit=6):
+        # (samples are illustrations: long strings and lists - a megabyte-sized stream, a 64 KiB frame - are clipped)
         if len(self.samples) < limit:
-            self.samples.append(x)
+            self.samples.append(_deep_clip(x))
 
     def note(self, s):
         if len(self.notes) < 200:
@@ -291,6 +292,17 @@ class Ctx:
         )
         shutil.rmtree(self.work, ignore_errors=True)
         return rc
+
+
+def _deep_clip(x, depth=0):
+    if isinstance(x, str):
+        return x if len(x) <= 1200 else x[:1200] + "...(%d characters)" % len(x)
+    if isinstance(x, (list, tuple)):
+        y = [_deep_clip(v, depth + 1) for v in list(x)[:48]]
+        return y if len(x) <= 48 else y + ["...(%d items)" % len(x)]
+    if isinstance(x, dict):
+        return {k: _deep_clip(v, depth + 1) for k, v in x.items()} if depth < 6 else "{...}"
+    return x
 
 
 def _clip_event(ev):
